@@ -195,6 +195,70 @@ class HarnessFailure(Exception):
     pass
 
 
+# ------------------------------------------------------------------ coverage-guided generation
+def coverage_guided(chk, modname, stream, seconds, procs=4, max_len=4096, shrink=None, kind="case"):
+    """Thorough tier: Atheris/libFuzzer drives the stream's *structured* Hypothesis generator with coverage
+    feedback from the instrumented tensora package (tools/fuzz_stream.py); the stream's own check is the oracle
+    inside the target.  Cases the target saved are re-checked here, in a fresh context, and absorbed like any
+    generated case.  A missing atheris is a note, not an error (the campaign is an addition to the seeded runs)."""
+    import re
+    import shutil
+    import subprocess
+
+    from . import bridge
+
+    script = os.path.join(VERIF, "tools", "fuzz_stream.py")
+    outdir = os.path.join(VERIF, "build", "atheris", f"{chk.prop}-{stream}")
+    shutil.rmtree(outdir, ignore_errors=True)
+    os.makedirs(outdir)
+    env = dict(os.environ)
+    env["PYTHONPATH"] = os.pathsep.join([VERIF, bridge.REPO_SRC, os.path.join(VERIF, ".deps"), env.get("PYTHONPATH", "")])
+    env["FUZZ_FOUND_DIR"] = outdir
+    env.setdefault("PYTHONHASHSEED", "0")
+    plist = []
+    for k in range(procs):
+        corpus = os.path.join(outdir, f"corpus{k}")
+        os.makedirs(corpus)
+        cmd = [sys.executable, script, modname, stream, chk.tier, corpus, f"-max_total_time={seconds}",
+               f"-seed={chk.seed * 1000 + k + 1}", f"-max_len={max_len}", "-len_control=0", f"-artifact_prefix={outdir}/crash{k}-", "-rss_limit_mb=4096"]
+        plist.append(subprocess.Popen(cmd, env=env, stdout=subprocess.PIPE, stderr=subprocess.STDOUT, text=True))
+    total = 0
+    cov = 0
+    for p in plist:
+        out, _ = p.communicate()
+        if "No module named 'atheris'" in out:
+            chk.notes.append(f"atheris is not installed (.deps missing): coverage-guided campaign for {stream} skipped")
+            return 0
+        m = re.findall(r"stat::number_of_executed_units: (\d+)", out) or re.findall(r"#(\d+)\s+DONE", out)
+        if m:
+            total += int(m[-1])
+        c = re.findall(r"cov: (\d+)", out)
+        if c:
+            cov = max(cov, int(c[-1]))
+        if p.returncode != 0 and not m:
+            chk.notes.append(f"coverage-guided campaign for {stream}: a fuzzer process ended with status {p.returncode}: {out[-300:]}")
+    mod = importlib.import_module(modname)
+    spec = mod.STREAMS[stream]
+    found = []
+    for fn in sorted(os.listdir(outdir)):
+        if fn.startswith("found-"):
+            with open(os.path.join(outdir, fn)) as fh:
+                found.append(json.load(fh))
+    stats = Stats()
+    if found:
+        setup = spec.get("setup")
+        ctx = setup(chk.tier, chk.seed, 99) if setup else None
+        for case in found:
+            stats.add(case, spec["check"](case, ctx) if ctx is not None else spec["check"](case))
+        if spec.get("teardown") and ctx is not None:
+            spec["teardown"](ctx)
+    chk.absorb(stats, shrink=shrink, kind=kind)
+    chk.coverage_extra.setdefault("coverage_guided", {})[stream] = {"executions": total, "edges_covered": cov, "cases_saved": len(found),
+                                                                     "processes": procs, "seconds": seconds}
+    shutil.rmtree(outdir, ignore_errors=True)
+    return total
+
+
 # --------------------------------------------------------------------------- known findings
 def load_known(prop):
     path = os.path.join(VERIF, "known_findings.json")
